@@ -741,6 +741,9 @@ package cron
 //@   at every send ghost signalled = true
 //@   at call WithCancel#0 ghost gctx = res0
 //@   at before go#0 assert [C05.stop.canceller] cancel != nil
+// audit round 3: the goroutine that waits for the jobs is started only after the scheduler was told to stop (a Wait that
+// starts earlier can return on a zero counter while the scheduler still starts a job)
+//@   at before go#0 assert [C05.stop.order] at(L, c.running) ==> signalled
 //@   ensures [C05.stop.sent] at(L, c.running) ==> signalled
 //@   ensures [C05.stop.notrunning] !at(U, c.running)
 //@   ensures [C05.stop.ctx] result == gctx && result != nil
@@ -764,6 +767,13 @@ package cron
 //@   at call Lock#0 label L
 //@   at before call Unlock#0 label U
 //@   ensures [C05.schedule.id] at(L, c.nextID) < 9223372036854775807 ==> (result == at(L, c.nextID) + 1 && at(U, c.nextID) == result)
+// audit round 3: on a running Cron the entry IS handed over (no giving up on the send)
+//@   ghost sent bool
+//@   at entry ghost sent = false
+//@   at every send ghost sent = true
+//@   at every select ghost sent = sent || (res0 >= 0 && selsend)
+//@   at every select assert [C05.schedule.noselect] selblocking && selcases == 1
+//@   ensures [C05.schedule.sent] at(L, c.running) ==> sent
 //@   at every before send assert [C05.schedule.handoff] arg0 == c.add && at(L, c.running) && held(c.runningMu) && arg1.ID == c.nextID && arg1.Schedule == schedule && arg1.Job == cmd && fresh(arg1)
 //@   at every store entries assert [C05.schedule.direct] !at(L, c.running) && held(c.runningMu) && len(c.entries) == at(L, len(c.entries)) + 1 && c.entries[len(c.entries) - 1].ID == c.nextID && c.entries[len(c.entries) - 1].Schedule == schedule && fresh(c.entries[len(c.entries) - 1])
 //@        && (forall k :: 0 <= k && k < at(L, len(c.entries)) ==> c.entries[k] == at(L, c.entries[k]))
@@ -776,6 +786,13 @@ package cron
 //@   requires c != nil && inv(c)
 //@   at call Lock#0 label L
 //@   at every before send assert [C05.remove.handoff] arg0 == c.remove && arg1 == id && at(L, c.running) && held(c.runningMu)
+// audit round 3: on a running Cron the request IS handed over (no giving up on the send)
+//@   ghost sent bool
+//@   at entry ghost sent = false
+//@   at every send ghost sent = true
+//@   at every select ghost sent = sent || (res0 >= 0 && selsend)
+//@   at every select assert [C05.remove.noselect] selblocking && selcases == 1
+//@   ensures [C05.remove.sent] at(L, c.running) ==> sent
 //@   at every before call removeEntry assert [C05.remove.direct] !at(L, c.running) && held(c.runningMu) && arg1 == id
 //@   ensures [C05.remove.done] !at(L, c.running) ==> (forall k :: 0 <= k && k < len(c.entries) ==> (c.entries[k] != nil && c.entries[k].ID != id))
 
@@ -792,6 +809,10 @@ package cron
 //@   requires c != nil && inv(c)
 //@   at call Lock#0 label L
 //@   at before call run#0 assert [C05.run.once] !at(L, c.running)
+// audit round 3: Run marks the Cron as running before the scheduler starts (otherwise a later Stop sends no signal and a
+// second Run / Start starts a second scheduler over the same entries)
+//@   at before call Unlock#1 label U
+//@   at before call run#0 assert [C05.run.marks] at(U, c.running)
 
 // run: the scheduler goroutine. Ghosts: woke = the case chosen by the last select is the timer channel; started[e] = how
 // often startJob was called for entry e; st0 = started at the last select; sincesel = startJob calls since the last select;
@@ -861,6 +882,34 @@ package cron
 //@   at call entrySnapshot#0 ghost gsnap = res0
 //@   at before send#0 assert [C05.snap.reply] arg0 == replyChan && arg1 == gsnap && sincesel == 0
 //@   at return assert [C05.run.stop] stopseen && sincesel == 0
+// audit round 3. (1) the timer is armed from a clock reading (or the instant received from the timer) taken SINCE the last
+// select: a stale `now` after a remove makes the timer sleep too long. (2) what is stored in an entry's Next is what its
+// Schedule.Next returned (initial pass, wake-up, add) - not a value derived from it. (3) the wake-up's startJob is the only
+// call site of startJob in the scheduler.
+//@   ghost freshnow bool
+//@   at entry ghost freshnow = false
+//@   at every call now ghost freshnow = true
+//@   at call In#0 ghost freshnow = true
+//@   at select#0 ghost freshnow = false
+//@   loop 0 invariant freshnow
+//@   loop 1 invariant freshnow
+//@   at call Sub#0 assert [C05.timer.fresh] freshnow
+//@   at before call removeEntry#0 assert [C05.rm.clock] freshnow
+//@   at call Next#0 assert [C05.init.next] arg0 == entry.Schedule && unixNano(arg1) == unixNano(now)
+//@   at store Next#0 assert [C05.init.stored] arg0 == call_Next_0_result
+//@   at store Next#1 assert [C05.wake.stored] arg0 == call_Next_1_result
+//@   at store Next#2 assert [C05.add.stored] arg0 == call_Next_2_result
+//@   ghost nall int
+//@   ghost nsite0 int
+//@   at entry ghost nall = 0
+//@   at entry ghost nsite0 = 0
+//@   at every call startJob ghost nall = nall + 1
+//@   at call startJob#0 ghost nsite0 = nsite0 + 1
+//@   loop 0 invariant [C05.start.onesite] nall == nsite0
+//@   loop 1 invariant nall == nsite0
+//@   loop 2 invariant nall == nsite0
+//@   loop 3 invariant nall == nsite0
+//@   at return assert [C05.start.onesite] nall == nsite0
 
 // Entries: not running: the snapshot is taken directly, under runningMu; running: a reply channel (capacity 1) is handed
 // to the scheduler goroutine and what comes back on it is returned unchanged.
